@@ -230,7 +230,15 @@ func runSeq(c *mon.Ctx, cs gen.Case, seq []step, salt int, midEncode, flagsOnly 
 	if flagsOnly {
 		c.Count("flag_only_sequences_ok", 1)
 		c.Distinct(fmt.Sprintf("%s|%v|flags-only|%d|%#02x", cs.Kind, a.Version, len(seq), byte(f.Header.Flags)))
-		return
+		if len(m.payload) > 0 || len(m.warnings) > 0 {
+			// this version cannot express what the frame now holds: the encoder refuses it. If it does NOT
+			// refuse, what it emits must still decode to the frame (checked below like any other sequence)
+			if err := codec.EncodeFrame(f, io.Discard); err != nil {
+				c.Count("flag_only_sequences_refused_by_the_encoder", 1)
+				return
+			}
+			c.Count("flag_only_sequences_accepted_by_the_encoder", 1)
+		}
 	}
 	// the expected abstract frame
 	exp := *a
